@@ -128,7 +128,14 @@ func toIdentRef(bases []*meta.Identity, v interface{}) (val.IdentRef, error) {
 		x = x[colon+1:]
 	}
 
-	ref := meta.FindIdentity(bases, x)
+	// RFC7950 Sec 9.10.2 the valid values are the identities derived from all of the bases. a
+	// base is not derived from itself
+	var ref *meta.Identity
+	for _, base := range bases {
+		if ref = meta.FindIdentity(base.DerivedDirect(), x); ref == nil {
+			break
+		}
+	}
 	if ref == nil {
 		return empty, fmt.Errorf("could not find identity ref for %T:'%s'", v, x)
 	}
